@@ -17,6 +17,24 @@ CLAIMED = {
              "C12), zero-valued limits treated as unset (as the code does), DelayManager/PSU/BCP client-view "
              "contracts. Platform back ends themselves are outside.",
         ref="4.C08"),
+    "C10": dict(
+        text="Every public method of Flipper (enable, disable, sw_flip, sw_release, _ball_search, the four event "
+             "handlers) and of AutofireCoil/Kickback (enable, disable, _hit, _ball_search, event handlers) is verified "
+             "against a ghost map of installed (switch, driver) rule pairs, for all five flipper wirings and both "
+             "autofire rule kinds: the class invariant 'enabled <=> exactly the rules of the wiring table are "
+             "installed and held; disabled => none of the device's pairs installed; software flip only while "
+             "enabled' is re-established by every method; set_*_rule is only called for pairs that are not "
+             "installed (installs each rule once), clear_hw_rule only for installed rules (removes each once); "
+             "disable releases a software-flipped flipper (both coils disabled last) and cancels a pending autofire "
+             "timeout re-enable on every path. Interleavings follow by induction over the per-call contracts. The "
+             "config_spec defaults (disable on ball_will_end, service_mode_entered) and disable>enable handler "
+             "priorities are re-read every run.",
+        note="Trusted: pyvc encoding, z3; the platform controller's set_*/clear_hw_rule are ASSUMED contracts "
+             "(core/platform_controller.py and the platform back ends are not verified); devices own disjoint "
+             "pairs (A-CONFIG); rule parameter getters are opaque. The game-lifecycle clause (tilt, service, no game) "
+             "rests on the spec defaults plus C06's event order and is not a VC. AutofireCoil._hit abstracts the "
+             "hit-time filter as 'some subsequence'.",
+        ref="4.C10"),
     "C11": dict(
         text="Every function of core/player.py that reads or writes player variables is proved, for all names, "
              "scalar values and stores, on the slice of the store at the key it is called with (a structural "
@@ -65,6 +83,23 @@ CLAIMED = {
              "evaluation is a constant number, pricing table entries >= 0 for positions 1..wrap (establishment by "
              "_calculate_pricing_tiers not yet under contract), no re-entrancy between approval and player_added.",
         ref="4.C20"),
+    "C17": dict(
+        text="RunningShow (assets/show.py) per operation, for all step tables, speeds, loop counts and states, "
+             "against a ghost of the event loop's timer handles: _run_next_step hands every player named in the "
+             "step exactly one show_play_callback carrying the PLANNED time of the step, the show's context and the "
+             "step number, remembers the player for clean-up, and - iff the show advances by itself - plans the next "
+             "step at next_step_time + duration/speed and sets exactly one timer for exactly that time (absolute "
+             "schedule, no cumulative drift by induction); loop counter and completion (stop, completed events once, "
+             "nothing scheduled); a stopped show cannot be revived. stop(): idempotent, cancels the timer, calls "
+             "show_stop_callback(context) exactly once for every player that was handed a step, posts stopped events "
+             "once. pause/resume/advance/step_back/_start_now/_start_play re-establish the class invariant 'every "
+             "live timer of the show is the one in _delay_handler; a stopped show has no live timer and no player "
+             "holding state', and call _run_next_step only with no step pending.",
+        note="Trusted: pyvc encoding, z3 (nonlinear real arithmetic for duration/speed), floats as reals, asyncio "
+             "timer model, players' clear_context (light removal is C09). A step names 0..2 players, event lists "
+             "hold at most one event; update(), token substitution, show_player/instance bookkeeping and players "
+             "other than through show_stop_callback are not under contract.",
+        ref="4.C17"),
     "C18": dict(
         text="Every public operation of Counter, Sequence and Accrual (count/hit, enable, disable, reset, restart, "
              "complete, timeout) is verified against a transition contract: a hit while disabled or inside the hit "
